@@ -96,5 +96,173 @@ def eval_unit(ctx, cases):
     return cands, seqs, fcmrs, cleans, res
 
 
+# ------------------------------------------------------------------------------------------ workspaces
+
+def npath(rel):
+    return '/R' if rel == '' else '/R/' + rel
+
+
+def file_content(f, fixed=False):
+    c = ('# bad\n' if fixed else '#bad\n') if f['dirty'] else ''
+    return 'package %s\n\n%sf%d := %d\n' % (f['pkg'], c, f['id'], f['id'])
+
+
+def selected(ws):
+    """the .rego files the command loads: below an argument, not below an ignored directory"""
+    out = []
+    for f in ws['files'] or []:
+        pth = f['path']
+        under = any(a == '' or pth == a or pth.startswith(a + '/') for a in ws['args'])
+        ign = ws.get('ignore') or ''
+        if ign and ign.rstrip('/') in pth.split('/')[:-1]:
+            under = False
+        if under:
+            out.append(pth)
+    return sorted(set(out))
+
+
+def content_ids(ws):
+    """content text -> short id; id -> (package parts, id after the non-moving fixes)"""
+    ids, lint = {}, {}
+    for f in ws['files'] or []:
+        cid = 'c%d' % f['id']
+        ids[file_content(f)] = cid
+        parts = f['pkg'].split('.')
+        if f['dirty']:
+            ids[file_content(f, True)] = cid + 'f'
+            lint[cid] = (parts, cid + 'f')
+            lint[cid + 'f'] = (parts, None)
+        else:
+            lint[cid] = (parts, None)
+    return ids, lint
+
+
+def snap_ids(snap, ids):
+    """files of a snapshot as (normalised path, content id); unknown contents get a stable id"""
+    out = []
+    for rel, txt in sorted(snap['files'].items()):
+        out.append((npath(rel), ids.get(txt, 'o:' + rel if txt == 'other ' + rel + '\n' else 'u:' + txt)))
+    return out
+
+
+def classify(r):
+    ws = r['ws']
+    if r['exit'] == 0:
+        return 'OutDryRun' if ws['dry_run'] else 'OutDone'
+    e = r['stderr']
+    if 'fixing failed due to conflicts' in e:
+        return 'OutConflicts'
+    if re.search(r'failed to (delete file|delete directory|delete empty directories|create directory|write file)', e):
+        return 'OutCommitFailed'
+    if 'failed to fix' in e or 'failed to create file provider' in e:
+        return 'OutFixerError'
+    return 'OutOther'
+
+
+def ws_term(r):
+    ws = r['ws']
+    ids, lint = content_ids(ws)
+    roots = []
+    for x in r['roots'] or []:
+        if x.startswith('^') or x.startswith('!'):
+            raise RuntimeError('unexpected root outside the workspace: %r' % (r['roots'],))
+        roots.append(npath(x))
+    lint_t = clist('(%s, (%s, %s))' % (cstr(k), clist(cstr(x) for x in v[0]), 'None' if v[1] is None else '(Some %s)' % cstr(v[1]))
+                   for k, v in sorted(lint.items()))
+    return ('{| w_policy := %s; w_dry := %s; w_files := %s; w_dirs := %s; w_sel := %s; w_roots := %s; w_lint := %s; '
+            'w_out := %s; w_after_files := %s; w_after_dirs := %s |}') % (
+        POL[ws['policy']], cbool(ws['dry_run']), cmap(snap_ids(r['before'], ids)), cstrs(npath(d) for d in r['before']['dirs']),
+        cstrs(npath(x) for x in selected(ws)), cstrs(roots), lint_t, classify(r) if classify(r) != 'OutOther' else 'OutOutOfFuel',
+        cmap(snap_ids(r['after'], ids)), cstrs(npath(d) for d in r['after']['dirs']))
+
+
+def eval_ws(ctx, results, name='Cases_C13_ws'):
+    v = ['From Regal Require Import Check.C13Check.', 'Open Scope N_scope.']
+    v.append('Definition wss : list ws_case := ' + clist(ws_term(r) for r in results) + '.')
+    v.append('Definition W1 := Eval vm_compute in failing ws_agrees 0 wss.')
+    v.append('Definition W2 := Eval vm_compute in map ws_leaves wss.')
+    v.append('Print W1. Print W2.')
+    rc, out = vlib.coq_eval(ctx, name, '\n'.join(v))
+    if rc != 0:
+        raise RuntimeError('workspace case evaluation failed:\n' + out[-3000:])
+    return vlib.parse_nat_list(out, 'W1'), vlib.parse_nat_list(out, 'W2')
+
+
+# ---- the property, computed on the two snapshots alone (no model) --------------------------------
+
+def declared_roots(ws):
+    """project roots as the workspace declares them (.regal directories, project.roots, .manifest files); without any
+    declaration the argument directories"""
+    roots = set()
+    for d in ws.get('regal_dirs') or []:
+        roots.add(d)
+        if d == '':
+            roots.update(ws.get('cfg_roots') or [])
+    roots.update(ws.get('manifests') or [])
+    if not roots:
+        roots.update(ws['args'])
+    return roots
+
+
+def contains(root, pth):
+    return root == '' or pth == root or pth.startswith(root + '/')
+
+
+def spec_root(ws, pth):
+    cands = [r for r in declared_roots(ws) if contains(r, pth)]
+    return max(cands, key=len) if cands else None
+
+
+def predicate(r):
+    """list of (kind, detail) violations of C13 visible in before/after alone"""
+    ws = r['ws']
+    before, after = r['before'], r['after']
+    bad = []
+    cls = classify(r)
+    if ws['dry_run'] and before != after:
+        bad.append(('dry-run-changed-disk', ''))
+    if r['exit'] != 0 and before != after:
+        bad.append(('failed-but-changed-disk', cls))
+    if cls == 'OutOther':
+        bad.append(('unexpected-failure', r['stderr'][:300]))
+    # one-to-one: every original file's content (as is, or fixed) is in exactly one file afterwards
+    origin = {}
+    for f in ws['files'] or []:
+        origin[file_content(f)] = f['path']
+        origin[file_content(f, True)] = f['path']
+    for rel, txt in before['files'].items():
+        origin.setdefault(txt, rel)
+    where = {}
+    for rel, txt in after['files'].items():
+        o = origin.get(txt)
+        if o is None:
+            bad.append(('unknown-content-after', rel))
+        else:
+            where.setdefault(o, []).append(rel)
+    for rel in before['files']:
+        n = len(where.get(rel, []))
+        if n == 0:
+            bad.append(('file-lost', rel))
+        elif n > 1:
+            bad.append(('file-duplicated', rel))
+    sel = set(selected(ws))
+    for rel in before['files']:
+        if rel not in sel and after['files'].get(rel) != before['files'][rel]:
+            if ('file-lost', rel) not in bad:
+                bad.append(('unselected-file-changed', rel))
+    # a moved file stays inside the project root it belonged to
+    for o, rels in where.items():
+        for rel in rels:
+            if rel != o:
+                sr = spec_root(ws, o)
+                if sr is not None and not contains(sr, rel):
+                    bad.append(('moved-out-of-root', '%s -> %s (root %s)' % (o, rel, sr or '.')))
+    # directories: none that still is (an ancestor of) a declared root disappears
+    for d in before['dirs']:
+        if d not in after['dirs'] and any(contains(d, rt) for rt in declared_roots(ws) if rt in before['dirs'] or rt == ''):
+            bad.append(('root-directory-removed', d))
+    return bad
+
+
 def run(ctx):
     raise NotImplementedError
